@@ -33,11 +33,11 @@ pub fn tier_for(property: &str, tier: &str) -> Tier {
             spec_cfgs: vec!["K1", "K2", "K3", "K4", "K5"],
             clients: 2,
             addrs: vec!["192.0.2.10", "192.0.2.11", "192.0.2.12", "198.51.100.10", "10.9.9.9"],
-            ticks: vec![1, 150, 299, 300, 301],
-            max_depth: 5,
+            ticks: vec![1, 150, 299, 300, 301, 30_000],
+            max_depth: 4,
             budget_s: 30.0,
             state_cap: 1_500_000,
-            probe_depth: 2,
+            probe_depth: 1,
         }
     }
 }
@@ -72,7 +72,7 @@ pub fn run(property: &str, tier: &str, replay: Option<Value>) -> ! {
         rep.machinery_error(format!("determinism self-test: {e}"));
         rep.finish();
     }
-    let (stats, found) = match bfs(&cfgs, &alpha, t.max_depth, t.budget_s, t.state_cap, t.probe_depth) {
+    let (stats, found) = match bfs_from(&cfgs, &alpha, &deep_roots(), t.max_depth, t.budget_s, t.state_cap, t.probe_depth) {
         Ok(x) => x,
         Err(e) => {
             rep.machinery_error(format!("bfs: {e}"));
@@ -107,6 +107,7 @@ pub fn run(property: &str, tier: &str, replay: Option<Value>) -> ! {
     rep.cov("exhaustive_scope", format!("all histories of length <= {} over the {}-operation alphabet, exact-state deduplicated", stats.depth_completed, alpha.ops.len()));
     rep.cov("next_level_partially_expanded", stats.capped);
     rep.cov("alphabet_ops", alpha.ops.len() as u64);
+    rep.cov("root_states", json!(deep_roots().iter().map(state_json).collect::<Vec<_>>()));
     rep.cov("states_per_depth", json!(stats.states_per_depth));
     rep.cov("outcome_classes", json!(stats.outcome_classes));
     rep.cov("probe_evaluations", probe_evals);
@@ -157,6 +158,14 @@ fn c13_probes(cfgs: &[Cfg], stats: &BfsStats, _alpha: &Alphabet) -> (u64, Vec<Vi
                             m2.giaddr = gi.parse().unwrap();
                             m2.req = Some("192.0.2.10".parse().unwrap());
                             probes.push(m2);
+                        }
+                    }
+                    // a renewing client (ciaddr set) is still not this server's business if it names another server
+                    if [1u8, 3, 7, 8].contains(&t) {
+                        for ci_addr in ["192.0.2.10"] {
+                            let mut m3 = m.clone();
+                            m3.ciaddr = Some(ci_addr.parse().unwrap());
+                            probes.push(m3);
                         }
                     }
                     probes.push(m);
